@@ -14,7 +14,7 @@ TB = ("Trusted: CPython's ast and exception hierarchy; documented semantics of a
 CHECKS = {
     "C01": ("Decides the structural discipline that implies the bound: every pool-task creation is dominated by a completed slot acquire (all edge kinds), tasks are created only "
             "through _start_task, exactly one release per task on every normal/exception/cancellation path of the wrapper, nobody else writes the semaphore, registry move and "
-            "release are one atomic segment (lemma L-LOCK checked each run); the limit installed is the value assigned, 0 included (LIMIT-IS-THE-ASSIGNED-VALUE). With asyncio.Semaphore trusted this implies #running <= size; the numeric bound itself is not computed.",
+            "release are one atomic segment (lemma L-LOCK checked each run); the limit installed is the value assigned, 0 included (LIMIT-IS-THE-ASSIGNED-VALUE). With asyncio.Semaphore trusted this implies #running <= size; the numeric bound itself is not computed; the setter never stores an unclamped difference into the free-room counter (a negative counter blocks nobody).",
             "dominance + who-may-call/write tables + ALL-EXITS path counting on a step-level CFG with exception and cancellation edges", "5 C01",
             TB + "Declined: the arithmetic bound and the idle-time equality is_full <=> running == size (follow from the discipline)."),
     "C02": ("HANDOFF rule (slot acquired by creator, released only in the new task's body: finding F1), life-cycle typestate over CFG x (registry, slot) on all edge kinds: every "
@@ -51,7 +51,7 @@ CHECKS = {
             "completion-dominance on the CFG + GATHER-COMPLETE rule + constant propagation", "5 C08",
             TB + "Declined: 'returns only after every task finished' as a temporal statement (follows from the order + trusted gather). F1 shared."),
     "C09": ("VALIDATE-FIRST on every spawning entry point and the pool_size setter (no trace completes before any raising exit), precedence type-check < closed < locked, raise inventory "
-            "by constant propagation (each documented rejection reachable, exact comparison constants), who-may-write the lock flag, lock/unlock idempotent and non-raising; FUNCTION-PREDICATE (nothing but what iscoroutinefunction accepts passes the function check, by three-valued evaluation of the checks); EXTERNAL-PREDICATES.",
+            "by constant propagation (each documented rejection reachable, exact comparison constants), who-may-write the lock flag, lock/unlock idempotent and non-raising; FUNCTION-PREDICATE (nothing but what iscoroutinefunction accepts passes the function check, by three-valued evaluation of the checks); EXTERNAL-PREDICATES; gather_and_close closes the pool on every way it returns normally (order rule shared with C08).",
             "path rule VALIDATE-FIRST + constant propagation + who-may-write", "5 C09", TB + "Declined: nothing structural."),
     "C10": ("Exactly one register add per started task, in the register filed under the task's group_name, same id as the running-registry key, one atomic segment; who-may add/remove; "
             "group-name wiring through all hops and return values; name templates by abstract string evaluation; generated names returned only after the membership test; "
